@@ -16,7 +16,19 @@
          decryption, threshold 100) in subprocesses with RAYON_NUM_THREADS in {1, 2, 4, 16},
          comparing the wallet's note rows, spend links and block rows with the prediction; a
          rejected range must leave the dump of every table unchanged.
-   The schedule clause is bound by that thread-count sweep (hook H1 is not installed).
+   The schedule clause ("the same whether trial decryption runs inline or batched across any number
+   of threads") is bound in two ways: by that thread-count sweep, and - with the verification hook
+   zcash_client_backend::scan::verif (H1, compiled only with --cfg zcash_librustzcash_verif) - by
+   SCHEDULES: Emit_BatchRunner.tla enumerates a family of small configurations of the batched
+   decryptor (two runners, <=4 add_outputs calls over two blocks, thresholds 1..3, 2..4 tasks), a
+   seeded sample of them is explored by TLC in every interleaving (ScheduleIndependent: what Collect
+   returns is a function of the workload alone) and every order in which the tasks can complete is
+   printed; the check scales each configuration to the real threshold of 100 (padding with foreign
+   outputs), lets TLC evaluate ScanRange on it, and the harness scans it (c) block by block through
+   scan_block (inline), on a fresh wallet with the tasks on the rayon pool (reference), and on a
+   fresh wallet per completion order with the hook running the queued tasks in exactly that order;
+   every run must produce the predicted wallet rows (= the reference's). The number of tasks the
+   hook drained is compared with the partition the model computes (vacuity guard).
 """
 import concurrent.futures
 import hashlib
@@ -595,6 +607,328 @@ def check_generator(scenarios):
 
 
 # ------------------------------------------------------------------------------------------------
+# schedules (Emit_BatchRunner.tla -> scan_cached_blocks with the tasks run in a chosen order)
+
+REAL_THRESHOLD = 100          # scan_cached_blocks: BatchRunners::for_keys(100, ..)
+POOL_PAIRS = [("S", "O"), ("S", "I"), ("O", "I")]     # runner 1 is the pool add_block feeds first
+SCHED_CONST = dict(MaxTxs=4, MaxOuts=3, MaxThreshold=3, MaxWorkers=4, Runners=2)
+
+
+def sched_cfg(path, spec, max_tasks=4, min_tasks=2, thresholds=(1, 2, 3), shapes="small", invariants=False, maxtxs=4, runners=2,
+              key_with_block=True):
+    c = dict(SCHED_CONST)
+    c.update(MaxTxs=maxtxs, Runners=runners)
+    with open(path, "w") as f:
+        f.write("SPECIFICATION %s\nCONSTANTS\n" % spec)
+        for k, v in c.items():
+            f.write("  %s = %d\n" % (k, v))
+        f.write("  FinalFlush = TRUE\n  KeyWithBlock = %s\n  MaxTasks = %d\n  MinTasks = %d\n  FamThresholds = {%s}\n  ShapeSet = \"%s\"\n"
+                % ("TRUE" if key_with_block else "FALSE", max_tasks, min_tasks, ", ".join(str(t) for t in thresholds), shapes))
+        if invariants:
+            f.write("INVARIANTS %s\n" % (invariants if isinstance(invariants, str) else
+                                         "ScheduleIndependent PartitionIsTasksOf OrderIsPermutation CollectExact SentOnce SendersOk"))
+            f.write("CHECK_DEADLOCK TRUE\n")
+        else:
+            f.write("CHECK_DEADLOCK FALSE\n")
+
+
+def sched_family(ctx, d, name="fam", **kw):
+    """Every configuration of the family, with TLC's partition into tasks and classification."""
+    cfg = "Sched_%s.cfg" % name
+    sched_cfg(os.path.join(d, cfg), "FamilySpec", **kw)
+    r = lib.tlc(ctx, d, "Emit_BatchRunner", cfg, workers=1, timeout=1500, coverage=False, xss="1g")
+    confs = r.prints("CONF")
+    if not confs:
+        raise lib.ToolError("Emit_BatchRunner: the family %s is empty" % name)
+    return confs
+
+
+def sched_real_outputs(c):
+    return -(-REAL_THRESHOLD // c["thr"]) * sum(len(call["outs"]) for call in c["wl"])
+
+
+def sched_pick(rng, confs, want, cap=650):
+    """A seeded sample of the family: `want` = [(number of tasks, how many)], classes spread out; configurations
+    that scale to more than `cap` real outputs are left out (cost of materialising and scanning them per order)."""
+    chosen, seen = [], set()
+    confs = [c for c in confs if sched_real_outputs(c) <= cap]
+
+    def take(pred, k):
+        cands = [c for c in confs if pred(c) and id(c) not in seen]
+        rng.shuffle(cands)
+        for c in cands[:k]:
+            seen.add(id(c))
+            chosen.append(c)
+    for n, k in want:
+        # per task count: the three structural classes together, each alone with a call above the threshold, then any
+        quota = [(lambda c: c["split"] and c["multitx"] and c["multiblock"], 1),
+                 (lambda c: c["big"] and c["multitx"], 1),
+                 (lambda c: c["split"] and not c["multitx"], 1),
+                 (lambda c: c["multiblock"] and not c["split"], 1)]
+        left = k
+        for pred, q in quota:
+            if left <= 0:
+                break
+            before = len(chosen)
+            take(lambda c, pred=pred: c["n"] == n and pred(c), min(q, left))
+            left -= len(chosen) - before
+        if left > 0:
+            take(lambda c: c["n"] == n, left)
+    return chosen
+
+
+def sched_orders(ctx, d, chosen, name="sched"):
+    """TLC explores every interleaving of the chosen configurations (invariants incl. ScheduleIndependent)
+    and prints every completion order with the collected result."""
+    path = ctx.path("confs_%s.ndjson" % name)
+    with open(path, "w") as f:
+        for c in chosen:
+            f.write(json.dumps({"thr": c["thr"], "wl": c["wl"]}) + "\n")
+    cfg = "Sched_%s.cfg" % name
+    sched_cfg(os.path.join(d, cfg), "SchedSpec", invariants=True)
+    r = lib.tlc(ctx, d, "Emit_BatchRunner", cfg, workers=1, timeout=2400, coverage=True, env_extra={"CONFS": path}, xss="512m")
+    lib.require_coverage(r, ["EAdd", "EFlush", "EStart", "ERun", "EFinish", "ECollect", "EDone"])
+    lib.account_tlc(ctx, r)
+    by = {}
+    for e in r.prints("SCHED"):
+        c = chosen[e["c"] - 1]
+        if e["tasks"] != c["tasks"]:
+            raise lib.ToolError("Emit_BatchRunner: the batches flushed by the actions differ from TasksOf for configuration %d" % e["c"])
+        if e["got"] != [call["outs"] for call in c["wl"]]:
+            raise lib.ToolError("Emit_BatchRunner: a collected result differs from the decryptable outputs (configuration %d, order %s)" % (e["c"], e["order"]))
+        by.setdefault(e["c"], set()).add(tuple(e["order"]))
+    fact = {0: 1, 1: 1, 2: 2, 3: 6, 4: 24}
+    for i, c in enumerate(chosen, start=1):
+        orders = sorted(by.get(i, ()))
+        # as many workers as tasks: the model must allow every permutation of the completions
+        if len(orders) != fact[c["n"]]:
+            raise lib.ToolError("Emit_BatchRunner: configuration %d with %d tasks has %d completion orders" % (i, c["n"], len(orders)))
+        c["orders"] = [list(o) for o in orders]
+    return r
+
+
+def sched_guard(ctx, d):
+    """ScheduleIndependent is not vacuous: with receivers keyed by txid alone (safeguard constant off) a workload with
+    the same txid in two blocks must violate it in the model."""
+    path = ctx.path("confs_guard.ndjson")
+    with open(path, "w") as f:
+        f.write(json.dumps({"thr": 2, "wl": [{"r": 1, "b": 1, "id": 1, "outs": [True]}, {"r": 1, "b": 2, "id": 1, "outs": [False, True]}]}) + "\n")
+    sched_cfg(os.path.join(d, "Sched_guard.cfg"), "SchedSpec", invariants="ScheduleIndependent", key_with_block=False)
+    r = lib.tlc(ctx, d, "Emit_BatchRunner", "Sched_guard.cfg", workers=1, timeout=600, coverage=False, env_extra={"CONFS": path},
+                expect_ok=False)
+    if r.invariant != "ScheduleIndependent":
+        raise lib.ToolError("Emit_BatchRunner keyed by txid only did not violate ScheduleIndependent in the model")
+
+
+def generic_orders(n, rng, nrand):
+    """For more tasks than TLC enumerates orders for: reverse, rotations, seeded random permutations."""
+    out = [{"k": "id"}, {"k": "rev"}] + [{"k": "rot", "by": b} for b in range(1, n)]
+    out += [{"k": "rand", "s": rng.randrange(1 << 30)} for _ in range(nrand)]
+    return out
+
+
+def sched_case(ctx, rng, cid, conf, orders, corrupt=None):
+    """Scales an abstract configuration to the real threshold: every abstract output becomes a group of
+    `unit` real outputs (unit * a >= 100 iff a >= thr), the wallet's - if the abstract output decrypts -
+    at a seeded place of its group, the rest foreign. The history is a setup range (notes to spend)
+    followed by the range under test; both are evaluated by TLC (ScanRange) afterwards."""
+    thr = conf["thr"]
+    unit = -(-REAL_THRESHOLD // thr)
+    if not (unit * thr >= REAL_THRESHOLD and unit * (thr - 1) < REAL_THRESHOLD):
+        raise lib.ToolError("schedule scaling: threshold %d does not scale to %d" % (thr, REAL_THRESHOLD))
+    pair = POOL_PAIRS[(cid + ctx.seed) % len(POOL_PAIRS)]
+    g = WalletGen(rng)
+    setup_tx = g.tx(1, {p: (["a1e", "a2e", "a1i", "a2e"], 0, 0) for p in POOLS}, [])
+    g.finish([g.block(1, [setup_tx], "ok")], "valid", note="schedule setup")
+    avail = [dict(x) for x in g.unspent]
+    owners_cycle = ["a1e", "a2e", "a1i", "a2i"]
+    blocks, calls = [], []
+    bvals = sorted({c["b"] for c in conf["wl"]})
+    seen = 0
+    for bi, b in enumerate(bvals, start=1):
+        ids = sorted({c["id"] for c in conf["wl"] if c["b"] == b})
+        txs = []
+        for t, txid in enumerate(ids, start=1):
+            spec = {}
+            for k, c in enumerate(conf["wl"], start=1):
+                if c["b"] != b or c["id"] != txid:
+                    continue
+                pool = pair[c["r"] - 1]
+                owners, idx = [], []
+                for j, mine in enumerate(c["outs"]):
+                    grp = ["f"] * unit
+                    if mine:
+                        off = rng.choice([0, unit - 1, rng.randrange(unit)])
+                        grp[off] = owners_cycle[seen % 4]
+                        seen += 1
+                        idx.append(j * unit + off)
+                    owners += grp
+                spec[pool] = (owners, 1 if rng.random() < 0.6 else 0, 0)
+                calls.append({"k": k, "blk": bi, "t": t, "p": pool, "idx": idx})
+            txs.append(g.tx(t, spec, avail))
+        blocks.append(g.block(bi, txs, "ok" if rng.random() < 0.7 else "absent"))
+        for tx in txs:
+            for p in POOLS:
+                for o in tx[p]["out"]:
+                    if o["n"] > 0:
+                        avail.append({"n": o["n"], "p": p, "a": 1 if o["o"].startswith("a1") else 2})
+    bad_at = 0
+    what = "sched"
+    if corrupt == "prev":
+        blocks[-1]["prev"] = 999000 + cid
+        bad_at, what = len(blocks), "sched:corrupt:prev"
+    elif corrupt == "meta":
+        blocks[-1]["meta"] = ("long", pair[0], 3)
+        bad_at, what = len(blocks), "sched:corrupt:meta_long"
+    g.finish(blocks, what, bad_at=bad_at, note="thr %d x %d, pools %s, %d tasks" % (thr, unit, "".join(pair), conf["n"]))
+    return {"id": cid, "kind": "sched", "conf": {k: conf[k] for k in ("thr", "wl", "tasks", "n", "split", "multitx", "multiblock", "big")},
+            "pools": list(pair), "unit": unit, "calls": calls, "ranges": g.scenarios, "orders": orders}
+
+
+def sched_cross_check(cases):
+    """The two specifications must agree: the outputs ScanRange reports as received in the range under test
+    are exactly the ones BatchRunner's Collect returns (scaled), per transaction and pool."""
+    for case in cases:
+        test = case["ranges"][-1]
+        if not test["exp"]["ok"]:
+            continue
+        for c in case["calls"]:
+            got = sorted(r["i"] for r in test["exp"]["res"][c["blk"] - 1]["recv"] if r["t"] == c["t"] and r["p"] == c["p"])
+            if got != sorted(c["idx"]):
+                raise lib.ToolError("ScanRange and BatchRunner disagree on schedule case %s, call %d: received %s, collected %s"
+                                    % (case["id"], c["k"], got, sorted(c["idx"])))
+
+
+def sched_cases(ctx, d, rng):
+    """The schedule cases of this run: a seeded sample of the TLC-enumerated family with every completion
+    order (<= 4 tasks) and, thorough tier, configurations with 5-6 tasks under generic orders."""
+    q = ctx.quick()
+    fam = sched_family(ctx, d, "fam", shapes="small" if q else "full")
+    chosen = sched_pick(rng, fam, [(4, 2), (3, 5), (2, 4)] if q else [(4, 4), (3, 14), (2, 8)])
+    if not q:
+        # four tasks of which some hold several transactions need five calls
+        mid = sched_family(ctx, d, "mid", max_tasks=4, min_tasks=4, thresholds=(2, 3), shapes="small", maxtxs=5)
+        chosen += sched_pick(rng, [c for c in mid if c["multitx"]], [(4, 4)], cap=800)
+        fam = fam + mid
+    r = sched_orders(ctx, d, chosen)
+    sched_guard(ctx, d)
+    cases = []
+    for i, c in enumerate(chosen, start=1):
+        cases.append(sched_case(ctx, rng, i, c, [{"k": "perm", "p": [x - 1 for x in o]} for o in c["orders"]]))
+    n_tlc = len(cases)
+    # a rejected range under test: the verdict and the untouched database must not depend on the order either
+    for j, kind in enumerate(["prev", "meta"] if not q else ["prev"]):
+        c = chosen[[k for k, x in enumerate(chosen) if x["n"] == 3][j]]
+        cases.append(sched_case(ctx, rng, len(cases) + 1, c, [{"k": "perm", "p": [x - 1 for x in o]} for o in c["orders"]], corrupt=kind))
+    if not q:
+        big = sched_family(ctx, d, "big", max_tasks=6, min_tasks=5, thresholds=(1, 2), shapes="small", maxtxs=6)
+        for c in sched_pick(rng, big, [(6, 3), (5, 3)], cap=900):
+            cases.append(sched_case(ctx, rng, len(cases) + 1, c, generic_orders(c["n"], rng, 8)))
+        fam = fam + big
+    flat = [rg for case in cases for rg in case["ranges"]]
+    tlc_eval(ctx, d, flat, "sched")
+    check_generator(flat)
+    sched_cross_check(cases)
+    return fam, cases, n_tlc, r
+
+
+def run_sched_mode(ctx, bindir, cases, name, hang_secs=None):
+    inp = ctx.path("sched_%s.ndjson" % name)
+    with open(inp, "w") as f:
+        for c in cases:
+            f.write(json.dumps(c) + "\n")
+    out = ctx.path("out_sched_%s.json" % name)
+    if os.path.exists(out):
+        os.remove(out)
+    env = harness_env(ctx)
+    # the reference run of each case has its tasks on the rayon pool; the captured runs use no pool at all
+    env["RAYON_NUM_THREADS"] = "2"
+    if hang_secs:
+        env["C05_HANG_SECS"] = str(hang_secs)
+    p = lib.run_bin(os.path.join(bindir, "c05_replay"), ["sched", inp, out], env_extra=env, timeout=2400,
+                    ok_codes=tuple(range(-64, 256)))
+    if p.returncode != 0 or not os.path.exists(out):
+        return {"mode": "sched", "cases": -1, "stats": {}, "per_case": [], "crashed": p.returncode,
+                "mismatches": [{"case": -1, "kind": "sched", "order": None, "input": None, "got": {"crash": p.returncode},
+                                "why": ["the scanning process died (exit %s): %s" % (p.returncode, (p.stderr or "")[-300:])]}]}
+    with open(out) as f:
+        return json.load(f)
+
+
+def run_sched_parallel(ctx, bindir, cases, parts, name="p"):
+    """The cases are independent (fresh wallets each): spread over `parts` processes, heaviest first."""
+    parts = max(1, min(parts, len(cases)))
+    load = [0] * parts
+    chunks = [[] for _ in range(parts)]
+    for c in sorted(cases, key=lambda c: -(len(c["orders"]) + 1) * (1 + c["conf"]["n"])):
+        k = load.index(min(load))
+        chunks[k].append(c)
+        load[k] += (len(c["orders"]) + 1) * (1 + c["conf"]["n"])
+    with concurrent.futures.ThreadPoolExecutor(max_workers=parts) as ex:
+        futs = [ex.submit(run_sched_mode, ctx, bindir, ch, "%s%d" % (name, i)) for i, ch in enumerate(chunks)]
+        res = [f.result() for f in futs]
+    merged = {"mode": "sched", "cases": 0, "mismatches": [], "stats": {}, "per_case": [], "incomplete": False}
+    for ch, r in zip(chunks, res):
+        merged["mismatches"] += r["mismatches"]
+        merged["per_case"] += r.get("per_case", [])
+        if r["cases"] != len(ch):
+            merged["incomplete"] = True
+        else:
+            merged["cases"] += r["cases"]
+        for k, v in (r.get("stats") or {}).items():
+            merged["stats"][k] = merged["stats"].get(k, 0) + v
+    return merged
+
+
+def judge_sched(ctx, res, cases):
+    by_id = {c["id"]: c for c in cases}
+    for m in res["mismatches"][:2]:
+        case = by_id.get(m.get("case")) or m.get("input")
+        o = m.get("order")
+        how = {"inline": "scan_block, block by block (inline decryption)",
+               "reference": "scan_cached_blocks with the batch tasks on the rayon pool (reference run)"}.get(
+                   o if isinstance(o, str) else None, "scan_cached_blocks with the batch tasks completing in order %s" % json.dumps(o))
+        lib.violation(ctx, {"property": "C05", "kind": "sched", "seed": ctx.seed, "cases": [case] if case else cases, "order": o,
+                            "got": m.get("got")},
+                      "%s disagrees with ScanBlock.tla%s on schedule case %s (%s; tasks %s): %s"
+                      % (how, "" if isinstance(o, str) else " / the reference run", m.get("case"),
+                         (case or {}).get("ranges", [{}])[-1].get("note"),
+                         json.dumps((case or {}).get("conf", {}).get("tasks"))[:200], "; ".join(m["why"])[:1200]))
+
+
+def sched_vacuity(ctx, res, cases, n_tlc):
+    """The schedules must have been exercised: tasks drained = the model's partition, enough cases with >= 2 tasks,
+    enough distinct non-identity orders, and the structural classes present."""
+    q = ctx.quick()
+    by_id = {c["id"]: c for c in cases}
+    if res["incomplete"] or res["cases"] != len(cases):
+        raise lib.ToolError("schedule replay ran %s of %d cases" % (res["cases"], len(cases)))
+    multi, orders, classes = 0, 0, {"split": 0, "multitx+multiblock": 0, "big": 0}
+    for pc in res["per_case"]:
+        c = by_id[pc["id"]]
+        n = c["conf"]["n"]
+        test_ok = c["ranges"][-1]["exp"]["ok"]
+        totals = {sum(x for x in dr) for dr in pc["drained"]}
+        if totals != {n}:
+            raise lib.ToolError("vacuity: schedule case %s: the hook drained %s tasks, the model's partition has %d (%s) - "
+                                "the enumerated completion orders are not those of the code's tasks"
+                                % (pc["id"], sorted(totals), n, json.dumps(c["conf"]["tasks"])[:200]))
+        if n >= 2 and test_ok:
+            multi += 1
+            orders += pc["distinct_orders_applied"]
+            classes["split"] += bool(c["conf"]["split"])
+            classes["multitx+multiblock"] += bool(c["conf"]["multitx"] and c["conf"]["multiblock"])
+            classes["big"] += bool(c["conf"]["big"])
+        if pc["id"] <= n_tlc and pc["distinct_orders_applied"] != len(c["orders"]):
+            raise lib.ToolError("vacuity: schedule case %s: %d of %d completion orders were applied" % (pc["id"], pc["distinct_orders_applied"], len(c["orders"])))
+    need_cases, need_orders = (8, 60) if q else (24, 200)
+    if multi < need_cases or orders < need_orders or not all(classes.values()) or not res["stats"].get("non_identity_orders_applied"):
+        raise lib.ToolError("vacuity: %d schedule cases with >= 2 tasks (need %d), %d distinct orders (need %d), classes %s, stats %s"
+                            % (multi, need_cases, orders, need_orders, classes, res["stats"]))
+    return {"cases_with_2plus_tasks": multi, "distinct_orders_executed": orders, "classes": classes}
+
+
+# ------------------------------------------------------------------------------------------------
 
 def model_check(ctx, d):
     mc, _ = families(ctx)
@@ -607,7 +941,8 @@ def model_check(ctx, d):
         lib.account_tlc(ctx, r)
         total += r.distinct
     # the concurrent part
-    br = dict(MaxTxs=3, MaxOuts=2, MaxThreshold=3, MaxWorkers=2) if ctx.quick() else dict(MaxTxs=3, MaxOuts=2, MaxThreshold=4, MaxWorkers=3)
+    br = dict(MaxTxs=3, MaxOuts=2, MaxThreshold=3, MaxWorkers=2, Runners=1) if ctx.quick() \
+        else dict(MaxTxs=3, MaxOuts=2, MaxThreshold=4, MaxWorkers=3, Runners=1)
 
     def br_cfg(name, final_flush, key_with_block, live=False, small=False):
         c = dict(br)
@@ -697,20 +1032,28 @@ def replay_blocks(ctx, bindir, tally, name, cases):
 def run(ctx):
     bindir = lib.cargo_build("h_wallet", ["c05_replay"])
     d = lib.stage_specs(ctx, AREA)
-    for m in ("ScanBlock", "MC_ScanBlock", "Emit_ScanBlock", "Eval_ScanBlock", "BatchRunner"):
+    for m in ("ScanBlock", "MC_ScanBlock", "Emit_ScanBlock", "Eval_ScanBlock", "BatchRunner", "Emit_BatchRunner"):
         lib.sany(os.path.join(d, m + ".tla"))
     rng = random.Random(ctx.seed * 7919 + 5)
+    srng = random.Random(ctx.seed * 104729 + 17)
 
     # (2b) wallet ranges first (their TLC evaluation is quick); the subprocesses then run in the
     # background while TLC works
     scenarios = wallet_scenarios(ctx, rng)
     tlc_eval(ctx, d, scenarios, "wallet")
     check_generator(scenarios)
-    pool = concurrent.futures.ThreadPoolExecutor(max_workers=len(THREADS) + 1)
+    pool = concurrent.futures.ThreadPoolExecutor(max_workers=len(THREADS) + 2)
     futs = {n: pool.submit(run_wallet_mode, ctx, bindir, scenarios, n, "wallet_t%d" % n) for n in THREADS}
 
     # (1) the specification alone (theorems, BatchRunner), next to the emission runs below
     mc_future = pool.submit(model_check, ctx, d)
+
+    # (2c) schedules: family and completion orders from TLC, scaled and evaluated, then replayed in the background
+    t0 = time.time()
+    sfam, scases, s_ntlc, _ = sched_cases(ctx, d, srng)
+    lib.log("[sched] family of %d configurations, %d cases (%d with TLC-enumerated orders), %d completion orders, prepared in %.1fs"
+            % (len(sfam), len(scases), s_ntlc, sum(len(c["orders"]) for c in scases), time.time() - t0))
+    sched_future = pool.submit(run_sched_parallel, ctx, bindir, scases, 4 if ctx.quick() else 6)
 
     # (2a) blocks: TLC-enumerated families, then TLC-evaluated seeded random big shapes
     tally = BlockTally()
@@ -741,6 +1084,13 @@ def run(ctx):
         if not wr["mismatches"] and wr["scenarios"] != len(scenarios):
             raise lib.ToolError("wallet replay (threads=%d) ran %s of %d scenarios" % (n, wr["scenarios"], len(scenarios)))
 
+    sres = sched_future.result()
+    lib.log("[replay] schedules: %s cases, stats %s" % (sres["cases"], sres["stats"]))
+    judge_sched(ctx, sres, scases)
+    sched_summary = None
+    if not sres["mismatches"] and not ctx.violations:
+        sched_summary = sched_vacuity(ctx, sres, scases, s_ntlc)
+
     # vacuity guards: every error class, accepted blocks with receipts / spends / change / internal scope,
     # every header-level malformation and the padded ranges were replayed
     need = ["accepted", "BlockHeightDiscontinuity", "PrevHashMismatch", "TreeSizeUnknown", "TreeSizeInvalid", "TreeSizeMismatch",
@@ -755,7 +1105,7 @@ def run(ctx):
         raise lib.ToolError("vacuity: classes %s change=%d internal=%d header kinds %s wallet kinds %s"
                             % (tally.classes, tally.changes, tally.internal, sorted(tally.hdr), wkinds))
 
-    ctx.traces = tally.n + len(scenarios) * len(THREADS)
+    ctx.traces = tally.n + len(scenarios) * len(THREADS) + sres["stats"].get("captured_runs", 0) + sres["stats"].get("reference_runs", 0)
     ex = tally.ex_ok
     ctx.add_sample({"mode": "scan_block", "prior": ex["prior"], "block_txs": ex["block"]["txs"],
                     "predicted": {k: ex["exp"][k] for k in ("recv", "spent", "final", "wtx")}})
@@ -769,6 +1119,14 @@ def run(ctx):
                                  "with_internal_scope": tally.internal, "harness_stats": tally.stats}
     ctx.extra["header_panics_excused_as_known_findings"] = excused
     ctx.extra["wallet_replay"] = {"scenario_kinds": wkinds, "per_thread_count": wallet_stats}
+    ctx.extra["schedule_replay"] = {"family_configurations": len(sfam), "cases": len(scases), "cases_with_tlc_enumerated_orders": s_ntlc,
+                                    "summary": sched_summary, "harness_stats": sres["stats"],
+                                    "per_case": [{"id": pc["id"], "tasks": pc["expected_tasks"], "orders": pc["orders"],
+                                                  "drained": sorted({sum(x) for x in pc["drained"]})} for pc in sres["per_case"]]}
+    ex = next((c for c in scases if c["conf"]["split"] and c["conf"]["multitx"]), scases[0])
+    ctx.add_sample({"mode": "scan_cached_blocks, tasks captured and run in a chosen order", "threshold": ex["conf"]["thr"], "unit": ex["unit"],
+                    "pools": ex["pools"], "calls": ex["conf"]["wl"], "tasks": ex["conf"]["tasks"], "orders": len(ex["orders"]),
+                    "predicted_receipts": [r for b in ex["ranges"][-1]["exp"]["res"] for r in b["recv"]][:4]})
     q = ctx.quick()
     lib.mc_evidence(
         ctx,
@@ -786,8 +1144,10 @@ def run(ctx):
                           "replayed_families": "see block_replay.families; random sample: 3 pools x <=3 txs x <=3 outputs x <=2 spends",
                           "thread_counts": THREADS, "batch_threshold": 100}},
         assumptions=["note encryption / decryption itself (sapling-crypto, orchard, zcash_note_encryption) is the trusted base",
-                     "task schedules of the batched decryptor are exercised by a thread-count sweep (1, 2, 4, 16 pool threads), "
-                     "not enumerated: hook H1 is not installed; BatchRunner.tla covers the interleavings in the model only",
+                     "task schedules: the hook scan::verif runs the batch tasks of a range one after the other on the scanning thread, "
+                     "in every completion ORDER TLC enumerates for the sampled configurations (<= 4 tasks; generic orders beyond); "
+                     "truly concurrent executions of the tasks are exercised by the thread-count sweep (1, 2, 4, 16 pool threads) only, "
+                     "their interleavings are enumerated in BatchRunner.tla (model) only",
                      "error classes: the class reported must be one of the block's defects (any class for a header-level "
                      "malformation); which one of several defects is reported is informational",
                      "the async sync-decryptor path is not in the baseline build and is not exercised"])
@@ -804,6 +1164,12 @@ def replay(ctx, path):
         judge_header_panics(ctx, res, "block")
         if not res["mismatches"] and not ctx.violations:
             lib.log("replay: the block now agrees with the specification")
+    elif rep["kind"] == "sched":
+        res = run_sched_mode(ctx, bindir, rep["cases"], "replay")
+        res["incomplete"] = False
+        judge_sched(ctx, res, rep["cases"])
+        if not res["mismatches"] and not ctx.violations:
+            lib.log("replay: the schedule case now agrees with the specification")
     else:
         res = run_wallet_mode(ctx, bindir, rep["scenarios"], rep["threads"], "replay")
         judge_wallet(ctx, res, rep["scenarios"], rep["threads"])
@@ -879,6 +1245,43 @@ def selftest(ctx):
         raise lib.ToolError("selftest: a perturbed wallet prediction was not reported")
     # model side: the two safeguards of BatchRunner.tla are needed (checked inside model_check)
     lib.log("selftest ok (scan_cached_blocks): perturbed position and perturbed verdict rejected")
+
+    # schedules: an unperturbed case passes under every order; one expected note position of the range under test
+    # moved by one => reported; an order naming more tasks than exist / the vacuity guard on the drained count
+    srng = random.Random(ctx.seed * 104729 + 17)
+    fam = sched_family(ctx, d, "fam", shapes="small")
+    chosen = sched_pick(srng, fam, [(3, 1), (2, 1)])
+    sched_orders(ctx, d, chosen, "selftest")
+    cases = [sched_case(ctx, srng, i, c, [{"k": "perm", "p": [x - 1 for x in o]} for o in c["orders"]]) for i, c in enumerate(chosen, start=1)]
+    flat = [rg for case in cases for rg in case["ranges"]]
+    tlc_eval(ctx, d, flat, "selftest_sched")
+    check_generator(flat)
+    sched_cross_check(cases)
+    ok = run_sched_mode(ctx, bindir, cases, "selftest_s0")
+    if ok["mismatches"] or ok["cases"] != len(cases):
+        raise lib.ToolError("selftest: unperturbed schedule cases mismatch: %s" % (ok["mismatches"][:1],))
+    if any({sum(x) for x in pc["drained"]} != {c["conf"]["n"]} for pc, c in zip(ok["per_case"], cases)) \
+            or not ok["stats"].get("non_identity_orders_applied"):
+        raise lib.ToolError("selftest: the hook did not drain the tasks the model predicts: %s" % ok["per_case"])
+    c2 = json.loads(json.dumps(cases))
+    tgt = next(b for b in c2[0]["ranges"][-1]["exp"]["res"] if b["recv"])
+    tgt["recv"][-1]["pos"] += 1
+    r1 = run_sched_mode(ctx, bindir, c2, "selftest_s1")
+    if not any(m["case"] == c2[0]["id"] for m in r1["mismatches"]) or any(m["case"] == c2[1]["id"] for m in r1["mismatches"]):
+        raise lib.ToolError("selftest: a perturbed note position of a schedule case was not reported (or the other case was)")
+    # the model claiming one more task than the code makes must trip the vacuity guard
+    c3 = json.loads(json.dumps(cases))
+    c3[0]["conf"]["n"] += 1
+    ok["incomplete"] = False
+    try:
+        sched_vacuity(ctx, ok, c3, len(c3))
+    except lib.ToolError as e:
+        if "drained" not in str(e):
+            raise
+    else:
+        raise lib.ToolError("selftest: a wrong task count did not trip the schedule vacuity guard")
+    lib.log("selftest ok (schedules): %d + %d completion orders pass unperturbed, a perturbed position is reported under the reference "
+            "and every order, a wrong task count trips the vacuity guard" % (len(cases[0]["orders"]), len(cases[1]["orders"])))
     # the known-finding filter excuses exactly (kind, message fragment) of an open entry
     fnd = {"txid_len": {"id": "x", "match": {"corruption": "txid_len", "outcome": "panic", "panic_contains": "copy_from_slice"}}}
     if header_excuse(fnd, "txid_len", ["copy_from_slice: source slice length (31)"]) is None \
